@@ -477,3 +477,10 @@ mod tests {
     // TODO: Test allocation size tracking
 }
 
+
+#[cfg(uflow_verif)]
+impl PacketSender {
+    pub fn verif_alloc(&self) -> usize {
+        self.alloc
+    }
+}
